@@ -279,7 +279,7 @@ CHECKS["C03"] = {
     "parts": [
         {"engine": "E", "proxy": ["plain"], "tests": [
             {"run": "TestVfC03", "quick": 40, "thorough": 1200, "shards_quick": 8, "shards_thorough": 16, "timeout_quick": 600, "timeout_thorough": 3400, "shrinktime": "40s"},
-            {"run": "TestVfC03WildcardUDP", "quick": 200, "thorough": 200000, "shards_quick": 2, "shards_thorough": 8, "timeout_thorough": 3400},
+            {"run": "TestVfC03WildcardUDP", "quick": 160, "thorough": 12000, "shards_quick": 4, "shards_thorough": 16, "timeout_thorough": 3400},
             {"run": "TestVfC03Pipelined", "quick": 160, "thorough": 6000, "shards_quick": 8, "shards_thorough": 16, "timeout_thorough": 3400},
         ]},
     ],
@@ -340,6 +340,7 @@ CHECKS["C20"] = {
     "parts": [
         {"engine": "E", "proxy": ["plain", "race"], "tests": [
             {"run": "TestVfC20Workload", "quick": 4, "thorough": 96, "shards_quick": 4, "shards_thorough": 8, "timeout_quick": 900, "timeout_thorough": 3500, "shrinktime": "90s"},
+            {"run": "TestVfC03WildcardUDP", "quick": 120, "thorough": 6000, "shards_quick": 4, "shards_thorough": 16, "timeout_thorough": 3400},
         ]},
         {"engine": "P", "pkg": "internal/cache", "race": True, "tests": [
             {"run": "TestVfC07MemCacheHammer", "quick": 80, "thorough": 3000, "shards_quick": 4, "shards_thorough": 8, "timeout_quick": 300},
